@@ -307,6 +307,31 @@ func execCampaign(s *session, c *campaign, prop, tier string, total int) {
 				_ = os.WriteFile(filepath.Join(dst, "race_report.txt"), []byte(r.out), 0o644)
 				c.violations++
 				c.lines = append(c.lines, fmt.Sprintf("VIOLATION property=%s replay=%s", prop, dst), "  data race inside generated code: "+raceSummary(r.out))
+			case r.code == 67:
+				// the stuck-operation monitor of the run side: an operation on a mock never returned
+				dst, ok := saveReplay(r, "stuck.json")
+				if !ok {
+					c.infra++
+					c.lines = append(c.lines, fmt.Sprintf("INFRA exec shard %d: an operation never returned but no stuck.json\n%s", r.idx, tail(r.out, 30)))
+					continue
+				}
+				var fc struct {
+					Violation struct {
+						Oracle string `json:"oracle"`
+						Msg    string `json:"msg"`
+					} `json:"violation"`
+				}
+				hb, _ := os.ReadFile(filepath.Join(dst, "history.json"))
+				_ = json.Unmarshal(hb, &fc)
+				if prop == "C06" {
+					c.violations++
+					c.lines = append(c.lines, fmt.Sprintf("VIOLATION property=%s replay=%s", prop, dst), "  "+fc.Violation.Oracle+": "+firstN(fc.Violation.Msg, 900))
+				} else {
+					// a deadlock inside generated code is C06's subject: this property cannot be judged on such a tree
+					_ = os.RemoveAll(dst)
+					c.infra++
+					c.lines = append(c.lines, fmt.Sprintf("INFRA exec shard %d: an operation on a mock never returned (deadlock inside generated code, see C06); %s cannot be judged: %s", r.idx, prop, firstN(fc.Violation.Msg, 300)))
+				}
 			default:
 				if dst, ok := saveReplay(r, "fail.json"); ok {
 					var fc struct {
